@@ -91,6 +91,8 @@ class NpShim:
         return np.ascontiguousarray(a, dtype=dtype, **kw)
 
     def diagflat(self, v, k=0):
+        if k != 0:
+            raise EngineError("np.diagflat with k != 0 is not shimmed")
         if _contains_sym(v):
             v = _to_sarr(v).reshape(-1)
         else:
@@ -177,16 +179,21 @@ class NpShim:
             dtype = float
         return np.finfo(dtype)
 
+    @staticmethod
+    def _truth_mask(a):
+        """Element-wise `!= 0` of an object array as a concrete bool array (forks on symbolic cells)."""
+        flat = a.reshape(-1)
+        return np.array([bool(v != 0) for v in flat], dtype=bool).reshape(a.shape)
+
     def nonzero(self, a):
         if isinstance(a, np.ndarray) and a.dtype == object:
-            mask = np.array([bool(v != 0) for v in a.reshape(-1)], dtype=bool).reshape(a.shape)
-            return np.nonzero(mask)
+            return np.nonzero(self._truth_mask(a))
         return np.nonzero(a)
 
-    def count_nonzero(self, a, *args, **kw):
+    def count_nonzero(self, a, axis=None, **kw):
         if isinstance(a, np.ndarray) and a.dtype == object:
-            return int(sum(bool(v != 0) for v in a.reshape(-1)))
-        return np.count_nonzero(a, *args, **kw)
+            return np.count_nonzero(self._truth_mask(a), axis=axis, **kw)
+        return np.count_nonzero(a, axis=axis, **kw)
 
     def unwrap(self, x, *a, **k):
         if has_sym(x):
